@@ -1259,7 +1259,7 @@ TEMPLATES = [(_h_memalias, 5), (_h_twice, 3), (_h_twins, 3), (_h_coefmut, 3), (_
 
 
 def generate(rng, tier, scale=1):
-    n = (600 if tier == "quick" else 6000) * scale
+    n = (800 if tier == "quick" else 12000) * scale
     pool = [t for t, wgt in TEMPLATES for _ in range(wgt)]
     out = []
     for i in range(n):
